@@ -24,6 +24,7 @@ func registerIntrinsics(P *Program) {
 	registerIO(P)
 	registerKyber(P)
 	registerKyberDKG(P)
+	registerAir(P)
 	registerAtomic(P)
 	registerSyncMap(P)
 	registerNative(P)
@@ -1046,6 +1047,9 @@ func (in *Interp) initForeignGlobal(g *ssa.Global, cell Ptr, et types.Type) {
 		*cell = Ptr(&c)
 		return
 	case "encoding/binary.LittleEndian", "encoding/binary.BigEndian":
+		return
+	case "crypto/rand.Reader":
+		*cell = Iface{T: types.Typ[types.Int], V: &Opaque{Kind: "rand.Reader"}}
 		return
 	case "os.Stdout", "os.Stderr", "os.Stdin":
 		var c Value = &Opaque{Kind: "os.File", Data: g.Name()}
